@@ -73,6 +73,14 @@ def run(tier="quick", seed=0):
                         return "%s(target=None) raised MinimisationFailedError" % name, tgt
                     if exc.final_length is None or exc.final_length <= tgt or exc.final_length > L:
                         return "%s: MinimisationFailedError reports final_length=%r for target %r, input %d" % (name, exc.final_length, tgt, L), tgt
+                    # "... reports the best size reached": the size the same minimiser reaches when it is given no target
+                    try:
+                        best = len(job(None))
+                    except Exception:       # noqa
+                        best = None
+                    if best is not None and exc.final_length != best:
+                        return "%s: MinimisationFailedError(target %r) reports final_length=%r; without a target the same minimiser reaches %d entries" % (
+                            name, tgt, exc.final_length, best), tgt
                     continue
                 except Exception as e:
                     return "%s raised %s: %s" % (name, type(e).__name__, e), tgt
